@@ -1,9 +1,12 @@
 use grafeo_engine::GrafeoDB;
 fn main() {
     let db = GrafeoDB::new_in_memory();
-    db.execute_sparql("INSERT DATA { <http://e/a> <http://e/p> <http://e/b> . <http://e/b> <http://e/p> <http://e/c> . <http://e/b> <http://e/q> 2 }").unwrap();
+    let s = db.session();
+    s.execute("INSERT (:A {s: 'x'})").unwrap();
+    s.execute("INSERT (:A {s: 'x'})").unwrap();
+    s.execute("INSERT (:A {s: 'y', p: 3})").unwrap();
     for q in std::env::args().skip(1) {
-        let r = db.execute_sparql(&q).unwrap();
-        println!("{q}\n  {:?}", r.rows);
+        let r = s.execute(&q);
+        println!("{q}\n  {:?}", r.map(|r| r.rows));
     }
 }
